@@ -36,12 +36,12 @@ checks = [
      "wire model as in C07 (validated natively); payload strings empty, bodies u32/[u8;8]; error-kind counterexamples are additionally replayed through the real tokio_serde Bincode/Json codecs; " + REPLAY, "Kani/CBMC differential round-trip harnesses over the derived serde impls, error-kind table and transport forwarding; MIR->SMT (z3+cvc5) second engine on the error-kind table; real-codec replay", "DESIGN §3 C15"),
  chk("C16", "Bounded symbolic model checking (Kani/CBMC) of every piece of arithmetic a peer- or caller-chosen deadline reaches: decode (any u64 s / u32 ns), timer arming on both ends against DelayQueue::insert's precondition, and the rpc.deadline span field against humantime's Display precondition. Malformed frames / byte-level decoders / floods are NOT decided.",
      "environment contracts of tokio-util's DelayQueue (constants read from the pinned source) and humantime's Display are validated natively each run; queue age <= 30 y, wheel lag <= 400 d, clock <= 2^40 s; counterexamples are replayed against the real BaseChannel (bytes over a duplex + LengthDelimited + Bincode) and the real client dispatch under tokio, with and without a fmt subscriber; " + REPLAY, "Kani/CBMC panic-freedom + environment-precondition harnesses over decode/arming/span-field code; real-endpoint replay", "DESIGN §3 C16"),
- chk("C17", "Bounded symbolic model checking (Kani/CBMC) over the code the real proc macro generates for 5 enumerated service definitions / 19 methods: every method choice, argument tuple and context is decided by the solver; reserved-name rejection is decided by rustc. The quantifier over programs is NOT reached (the family is enumerated).",
+ chk("C17", "Bounded symbolic model checking (Kani/CBMC) over the code the real proc macro generates for 7 enumerated service definitions / 26 methods (incl. round trips of the generated enums through a positional and a name-tagged wire model): every method choice, argument tuple and context is decided by the solver; reserved-name rejection is decided by rustc. The quantifier over programs is NOT reached (the family is enumerated).",
      "harness Stub that calls the generated Serve::serve directly (no transport); implementors are harness code; " + REPLAY, "Kani/CBMC bounded symbolic execution of the macro-generated glue; native replay", "DESIGN §3 C17"),
  chk("C19", "Bounded symbolic model checking (Kani/CBMC) of tarpc's hook combinators against a straight-line reference model: every fail position, context edit, result rewrite and nesting for chains of length 0-3 (13 compositions).",
      "hooks/handler are ready futures polled once; ServerError detail strings empty; " + REPLAY, "Kani/CBMC differential harnesses (real combinators vs reference model); native replay", "DESIGN §3 C19"),
- chk("C20", "Bounded symbolic model checking (Kani/CBMC) of RoundRobin/AtomicCycle, ConsistentHash and Retry: all request values, a 128-bit-seeded hasher family, every retry policy over <=5 attempts, and every poll order of 4 concurrent round-robin calls through two handles; backend counts 1-4 enumerated.",
-     "Kani executes atomics sequentially (threaded runs are linearised to the explored poll orders); backends/hasher/policy are harness code; Retry explored with Ok results and ready backends only; " + REPLAY, "Kani/CBMC bounded symbolic execution with a symbolic poll schedule; native replay", "DESIGN §3 C20"),
+ chk("C20", "Bounded symbolic model checking (Kani/CBMC) of RoundRobin/AtomicCycle, ConsistentHash and Retry: all request values, a 128-bit-seeded hasher family, every retry policy over <=5 attempts, and every poll order of 4 concurrent round-robin calls through two handles; backend counts 1-4 enumerated; plus, from the MIR of the cursor update, every sequentially consistent interleaving of 2-3 threads x 1-2 calls over 2-3 backends (z3+cvc5).",
+     "Kani executes atomics sequentially; the thread-level claim comes from the MIR->SMT concurrency engine (sequential consistency, cursor starting at 0, translator validated against the real stub's sequential picks; a sat schedule is confirmed by a stress run with OS threads); backends/hasher/policy are harness code; Retry explored with Ok results and ready backends only; " + REPLAY, "Kani/CBMC bounded symbolic execution with a symbolic poll schedule; MIR->SMT (z3+cvc5) with the thread schedule as solver variables for the round-robin cursor; native / stress replay", "DESIGN §3 C20"),
 ]
 claimed = {c["property_id"] for c in checks}
 na = [{"property_id": p["id"], "reason": NA[p["id"]]} for p in props if p["id"] not in claimed]
@@ -50,7 +50,9 @@ man = {"version": 1,
  "hooks": {"guard": "none in /repo: in-crate harnesses live in /verif/overlay and are appended (cfg(kani) / cfg(verif_replay)) to a scratch COPY of /repo at check time",
            "enable": "each check copies /repo's working tree to /tmp/verif-scratch/<id>/repo, builds the harness crates (path dependency on the copy) or injects the overlay into the copy, and deletes the copy afterwards",
            "baseline_off_cmd": "cd /repo && cargo test --workspace --no-fail-fast --offline", "source_commits": [], "add_only": True},
- "engines": [{"name": "mir2smt", "path": "/verif/mir2smt/mir2smt.py", "serves_properties": ["C15"],
+ "engines": [{"name": "mir2smt-conc", "path": "/verif/mir2smt/conc.py", "serves_properties": ["C20"],
+              "kind_free_text": "rustc nightly MIR of the round-robin cursor update -> SMT-LIB2 with Int schedule variables (which thread performs each atomic step) and a bit-vector cursor -> z3 4.8.12 and cvc5 1.0 (must agree)"},
+             {"name": "mir2smt", "path": "/verif/mir2smt/mir2smt.py", "serves_properties": ["C15"],
               "kind_free_text": "rustc nightly MIR dump of tarpc -> SMT-LIB2 bit-vector encoding of the io::ErrorKind tables composed with codec wire functions -> z3 4.8.12 and cvc5 1.0 (must agree); translation validated against the real functions under real codecs each run"},
              {"name": "kani-cbmc", "path": "/verif/lib/kprop.py", "serves_properties": sorted(claimed),
               "kind_free_text": "Kani 0.68 / CBMC 6.11 (cadical) bounded symbolic execution of the compiled tarpc code; harness crates in /verif/harness, in-crate overlay in /verif/overlay; counterexamples replayed natively (/verif/harness/*/src/main.rs, /verif/replay)"}],
